@@ -174,7 +174,7 @@ def stage_effects(ctx):
                     continue
                 if "/roots/" not in p and e.tmp not in p:
                     continue                 # interpreter / harness files elsewhere (database, tool control file)
-                if p.startswith(os.path.join(e.tmp, "index.db")) or p.endswith("toolctl.json"):
+                if p.startswith(os.path.join(e.tmp, "index.db")) or p.endswith("toolctl.json") or p.endswith("lfs_state.json"):
                     continue
                 nev += 1
                 inside = [r for r in roots if p.startswith(r + "/")]
